@@ -195,6 +195,8 @@ class G:
             if is_seq(t):
                 opts.append(("select",))
                 opts.append(("where",))
+                if "comp" in F:
+                    opts.append(("comp",))
                 if "nested" in F and t == Sq(O):
                     opts.append(("selectmany",))
         if not opts:
@@ -284,6 +286,18 @@ class G:
             src = self.expr(t, scope, d - 1)
             lm, _ = self.lam1(et, lambda sc, dd: (self.expr(B, sc, dd), B), scope, d - 1)
             return self.opcall("Where", src, lm)
+        if k == "comp":
+            # [elt for v in src if c1 if c2 ...]  (list comprehension or generator expression)
+            et = t[1]
+            st = [O, I][self.ch.pick(2)]
+            src = self.expr(Sq(st), scope, d - 1)
+            v = self.fresh()
+            sc2 = scope + [(v, st)]
+            nifs = self.ch.pick(3)
+            ifs = [self.expr(B, sc2, d - 1) for _ in range(nifs)]
+            elt = self.expr(et, sc2, d - 1)
+            node = [ast.ListComp, ast.GeneratorExp][self.ch.pick(2)]
+            return node(elt, [ast.comprehension(ast.Name(v, ast.Store()), src, ifs, 0)])
         if k == "selectmany":
             src = self.expr(Sq(O), scope, d - 1)
             lm, _ = self.lam1(O, lambda sc, dd: (self.expr(Sq(O), sc, dd), Sq(O)), scope, d - 1)
@@ -400,6 +414,15 @@ def rename_binders(q, scheme, pool=("x", "y", "z", "w", "u", "t", "s")):
                         conflicts[b].add(b2)
             walk(n.body, chain + bs)
             return
+        if isinstance(n, (ast.ListComp, ast.GeneratorExp)):
+            g = n.generators[0]
+            walk(g.iter, chain)
+            b = g.target.id
+            order.append(b)
+            for i in g.ifs:
+                walk(i, chain + [b])
+            walk(n.elt, chain + [b])
+            return
         if isinstance(n, ast.Name) and n.id in chain:
             i = chain.index(n.id)
             for c in chain[i + 1:]:
@@ -415,7 +438,7 @@ def rename_binders(q, scheme, pool=("x", "y", "z", "w", "u", "t", "s")):
 
     class R(ast.NodeTransformer):
         def visit_Name(self, n):
-            return ast.Name(name.get(n.id, n.id), L)
+            return ast.Name(name.get(n.id, n.id), n.ctx)
 
         def visit_arg(self, n):
             return ast.arg(name.get(n.arg, n.arg))
